@@ -152,6 +152,11 @@ def run_impl(c) -> str:
 # the specification (oracle): longest bound prefix, lexical macro scope
 # ----------------------------------------------------------------------------------------------
 
+# names the environment itself declares (types, functions): they denote those as long as nothing is bound to them
+BUILTIN_NAMES = frozenset(["int", "uint", "double", "bool", "string", "bytes", "list", "map", "type", "timestamp", "duration",
+                           "null_type", "dyn", "size", "matches", "contains", "getDate"])
+
+
 class SpecErr(Exception):
     pass
 
@@ -245,6 +250,10 @@ class Spec:
         try:
             v, L, best = denote(self.names, self.pkg, ref)
         except SpecErr as ex:
+            if any(t in BUILTIN_NAMES for t in ref):
+                # nothing bound: the name of a CEL type / built-in function denotes that type / function (the
+                # environment's own declaration), the statement only says what BINDINGS a reference denotes
+                raise Unspec("no binding, and the reference spells a built-in type or function")
             a = ex.args[0]
             self.used.append((a[1] if len(a) > 1 else None, a[2] if a[0] == "field" else None, a[2] if a[0] == "unbound" else None))
             raise
@@ -287,6 +296,40 @@ def namespace_as_value(c) -> bool:
     for L, best, full in s.used:
         if best is None and full is not None and any(len(n) > len(full) and n[:len(full)] == full for n in s.names):
             return True
+    return False
+
+
+def ref_heads(e) -> List[str]:
+    return [x[1].split(".")[0] for x in e_walk(e) if x[0] == "ref"]
+
+
+ACTIVATION_ATTRS = frozenset(["identifiers", "functions", "package", "get", "clone", "nested_activation", "resolve_variable"])
+OBJECT_DUNDERS = frozenset(n for n in dir(object)) | frozenset(["__dict__", "__module__", "__weakref__", "__getattr__", "__doc__",
+                                                                "__annotations__"])
+
+
+def activation_attribute_name(c) -> bool:
+    """D68: transpiled code reads the identifier NAME as the Python attribute `activation.NAME`; `__getattr__` (the
+    name lookup) only runs when normal attribute lookup fails, so an identifier spelled like a real attribute or
+    method of the Activation object (identifiers, functions, package, get, clone, ..., __init__, __dict__, ...)
+    yields that attribute instead of the binding / macro variable.  CompiledRunner only; head of a reference only."""
+    if c.get("runner") != "C":
+        return False
+    return any(h in ACTIVATION_ATTRS or h in OBJECT_DUNDERS for h in ref_heads(c["e"]))
+
+
+def builtin_unbound_head(c) -> bool:
+    """a reference whose head spells a built-in type / function and is bound nowhere (no macro variable, no binding or
+    declaration starting with it at a package level): it denotes the built-in, which the model of the bindings does not carry"""
+    names = [split(p) for p, _ in list(c["binds"]) + list(c.get("decls", []))]
+    lv = list(levels(split(c.get("pkg") or "")))
+    mvars = {x[1] for x in e_walk(c["e"]) if x[0] == "map"}
+    for x in e_walk(c["e"]):
+        if x[0] == "ref":
+            ref = split(x[1])
+            if any(t in BUILTIN_NAMES for t in ref) and ref[0] not in mvars \
+                    and not any(n[:len(L) + 1] == L + (ref[0],) for L in lv for n in names):
+                return True
     return False
 
 
@@ -476,6 +519,108 @@ def history_cases(rng: random.Random, n: int):
                 yield {"kind": "hist", "runner": rn, "pkg": pkg, "decls": decls, "hist": hist, "binds": last, "e": ["ref", ref]}
 
 
+# ----------------------------------------------------------------------------------------------
+# the SPELLING of the identifiers: the statement speaks of names, whatever valid identifier they are
+# ----------------------------------------------------------------------------------------------
+
+# IDENT : /[_a-zA-Z][_a-zA-Z0-9]*/ minus the CEL reserved words.  The pool is the sub-domains of that alphabet an
+# implementation may treat specially: names of the CEL types and of built-in functions (found in the activation's
+# function table when nothing is bound), names with a leading underscore / only underscores (Python's "private" and
+# special attribute conventions: the transpiled code reads every identifier as an attribute of the activation),
+# Python keywords and builtins that are no CEL reserved words (transpiled through activation.get('NAME')),
+# attributes and methods of the Activation / NameContainer / dict objects themselves, upper case and digits.
+SPELL_BUILTIN = ["int", "uint", "double", "bool", "string", "bytes", "list", "map", "type", "timestamp", "duration", "null_type",
+                 "dyn", "size", "matches", "contains", "getDate"]
+SPELL_UNDERSCORE = ["_", "__", "_x", "_0", "__m", "_value", "_a_", "___", "_X", "_1a", "__x1", "_ab", "_i", "_tmp"]
+SPELL_PYTHON = ["class", "lambda", "None", "True", "is", "not", "def", "self", "print", "len", "value", "parent", "items",
+                "keys", "activation", "result", "__init__", "__dict__", "identifiers", "package", "functions", "get"]
+SPELL_PLAIN = ["A", "X9", "a_b", "x_", "ab1", "v_1", "Zz"]
+SPELLINGS = SPELL_BUILTIN + SPELL_UNDERSCORE + SPELL_PYTHON + SPELL_PLAIN
+
+
+def rename_path(p: str, m: Dict[str, str]) -> str:
+    return ".".join(m.get(t, t) for t in p.split(".")) if p else p
+
+
+def rename_val(v, m):
+    if isinstance(v, dict):
+        return {m.get(k, k): rename_val(x, m) for k, x in v.items()}
+    if isinstance(v, list):
+        return [rename_val(x, m) for x in v]
+    return v
+
+
+def rename_e(e, m):
+    k = e[0]
+    if k == "ref":
+        return ["ref", rename_path(e[1], m)]
+    if k == "lit":
+        return ["lit", rename_val(e[1], m)]
+    if k == "list":
+        return ["list", [rename_e(x, m) for x in e[1]]]
+    return ["map", m.get(e[1], e[1]), rename_e(e[2], m), rename_e(e[3], m)]
+
+
+def rename_case(c, m: Dict[str, str]):
+    """the same case with every identifier (binding / declaration / package components, reference components, macro
+    variables, map keys used as fields) consistently replaced: resolution must be the same up to the renaming"""
+    rb = lambda bs: [[rename_path(p, m), rename_val(v, m)] for p, v in bs]
+    d = dict(c)
+    d["pkg"] = rename_path(c.get("pkg") or "", m)
+    d["decls"] = [[rename_path(p, m), a] for p, a in c.get("decls", [])]
+    d["binds"] = rb(c["binds"])
+    if c.get("hist"):
+        d["hist"] = [rb(h) for h in c["hist"]]
+    d["e"] = rename_e(c["e"], m)
+    d["spelling"] = sorted(m.items())
+    return d
+
+
+def case_idents(c) -> List[str]:
+    s = set()
+
+    def val(v):
+        if isinstance(v, dict):
+            for k, x in v.items():
+                s.add(k)
+                val(x)
+        elif isinstance(v, list):
+            for x in v:
+                val(x)
+    for p, v in list(c["binds"]) + [b for h in c.get("hist") or [] for b in h]:
+        s.update(p.split("."))
+        val(v)
+    for p, _ in c.get("decls", []):
+        s.update(p.split("."))
+    s.update(t for t in (c.get("pkg") or "").split(".") if t)
+    for e in e_walk(c["e"]):
+        if e[0] == "ref":
+            s.update(e[1].split("."))
+        elif e[0] == "map":
+            s.add(e[1])
+        elif e[0] == "lit":
+            val(e[1])
+    return sorted(s)
+
+
+def respell(rng: random.Random, c, pool=None):
+    ids = case_idents(c)
+    if pool is None:
+        # usually one family of spellings at a time (every name of the case a type name, or underscored, ...)
+        r = rng.random()
+        pool = SPELL_BUILTIN if r < 0.3 else SPELL_UNDERSCORE if r < 0.6 else SPELL_PYTHON if r < 0.75 else SPELLINGS
+    if len(pool) < len(ids):
+        pool = pool + [n for n in SPELLINGS if n not in pool]
+    new = rng.sample(pool, len(ids))
+    keep = rng.random()
+    m = {}
+    for i, n in zip(ids, new):
+        if keep < 0.35 and rng.random() < 0.5:
+            continue                            # a mix of ordinary and special spellings
+        m[i] = n
+    return rename_case(c, m)
+
+
 MACRO_BINDS = [
     [["x", 100], ["y", {"k": 201}], ["a", 300]],
     [["x", 100], ["y", {"k": 201}], ["a.b", 310]],
@@ -571,12 +716,26 @@ class C12(Prop):
             for rn in ("I", "C"):
                 cases.append({"kind": "macro", "runner": rn, "pkg": pkg,
                               "decls": [], "binds": binds, "e": e})
+        # the spelling of the identifiers: cases of every family above with all names consistently replaced by
+        # names of CEL types / built-in functions, underscored names, Python keywords, attribute names, ...
+        by_kind: Dict[str, List[Dict[str, Any]]] = {}
+        for c in cases:
+            if c["runner"] == "I":
+                by_kind.setdefault(c["kind"], []).append(c)
+        n_sp = 220 if quick else 6000
+        for i in range(n_sp):
+            kind = "macro" if i % 2 == 0 else rng.choice(sorted(by_kind))
+            d = respell(rng, rng.choice(by_kind[kind]))
+            for rn in ("I", "C"):
+                cases.append(dict(d, runner=rn))
         return cases
 
     def impl(self, c):
         return run_impl(c)
 
     def model_line(self, c):
+        if c.get("spelling") and (activation_attribute_name(c) or builtin_unbound_head(c)):
+            return None        # the Activation object's own attributes (D68) / the built-in types are not in the model
         if c["kind"] == "macro" and namespace_as_value(c):
             return None        # a leaked NameContainer object flowing on (into a macro variable): `ncobj` is opaque in the model
         pkg = c.get("pkg") or "-"
@@ -618,7 +777,8 @@ class C12(Prop):
         return bool(c.get("pkg")) or any("." in p or isinstance(v, dict) for p, v in c["binds"])
 
     def known_preds(self):
-        return {"value_under_container": value_under_container, "namespace_as_value": namespace_as_value}
+        return {"value_under_container": value_under_container, "namespace_as_value": namespace_as_value,
+                "activation_attribute_name": activation_attribute_name}
 
     def extra_checks(self, tier, rng):
         """the Lean `denote` (the specification the theorems are about) agrees with the Python oracle's `denote`"""
